@@ -173,8 +173,10 @@ def leaf_id_request():
                                                    "and 1 <= new_id and new_id <= 254 and not old(new_id in R)"),
         ], log=[]),
     ], modifies=["gateway.nodes[...]"], witness={"new_id": (TInt, "the_stored_key(gateway.nodes)")},
-        fresh={"IDN": {"type": TObj("Node"), "is": "gateway.nodes[new_id]", "outcomes": ["normal", "TransportError"]},
-               "IDNC": {"type": TDict(TInt, TObj("Child")), "is": "gateway.nodes[new_id].children", "outcomes": ["normal", "TransportError"]}},
+        fresh={"IDN": {"type": TObj("Node"), "is": "gateway.nodes[new_id]", "outcomes": ["normal", "TransportError"],
+                       "when": "empty(R) or max_key(R) < 254"},
+               "IDNC": {"type": TDict(TInt, TObj("Child")), "is": "gateway.nodes[new_id].children", "outcomes": ["normal", "TransportError"],
+                        "when": "empty(R) or max_key(R) < 254"}},
         requires=[H("wf/dispatched-as-internal", "message.command == 3")])
 
 
@@ -263,10 +265,12 @@ def _flush_contract():
             P("C07/only-that-node", "forall(lambda q: implies(k3n(q) != n, (q in SM) == old(q in SM) and implies(q in SM, SM[q] is old(SM[q]))), 'key3')"),
             P("C07/each-released-once", f"forall(lambda x: wcnt(x) == old(wcnt(x)) + (1 if {RELEASED} else 0), 'Message')"),
             H("C07/log-grows", "wlen() >= old(wlen())"),
+            P("C10/release-leaves-request-markers-alone", "same_dict(message_buffer.internal_messages)"),
             CANARY("C07/canary-nothing-released", "same_dict(SM)"),
         ],
         raises={"TransportError": [
             H("C07/log-grows", "wlen() >= old(wlen())"),
+            P("C10/release-leaves-request-markers-alone", "same_dict(message_buffer.internal_messages)"),
             CANARY("C08/canary-failure-loses-nothing", "same_dict(SM)"),
             H("C08/done-is-of-that-node", "forall(lambda q: implies(q in done, old(q in SM) and k3n(q) == n), 'key3')"),
             P("C08/written-ones-gone", "forall(lambda q: implies(q in done, not (q in SM)), 'key3')"),
